@@ -11,6 +11,10 @@ import (
 )
 
 func init() {
+	reg(&eng.Rule{ID: "C05.credit-after-verification", Prop: "C05", Floor: 4,
+		Doc: "In SignatureVerifier.Verify a principal (and a key) is credited only for a signature that verified: every usedPrincipalIDs.Add / usedKeyIDs.Add is dominated by the nil edge of gitobject.Verify for the same key, or lies in the loop over the keys accepted by dsse.VerifyEnvelope for the same principal; the 'Git object verified' flag starts false and becomes true only behind that nil edge.",
+		Run: c05CreditAfterVerification})
+
 	Meta["C05"] = PropMeta{
 		Explanation: "Static necessary conditions of 'thresholds count distinct trusted principals, each with a distinct valid key', decided on every CFG path of policy.(*SignatureVerifier).Verify, its consumer verifyGitObjectAndAttestationsUsingVerifiers and the vendored DSSE envelope verifier: the invalid-verifier sanity guard dominates everything; at most one principal is credited for the Git signature and its key is recorded; the envelope phase skips already-counted principals and already-used keys, records every accepted key and principal, and verifies per principal with threshold 1; a nil error is returned only under the threshold / exhaustive / single-git-signature conditions; verifier objects are never mutated after construction; the consumer counts trusted∩used against Threshold(); the DSSE verifier checks PAE(payloadType, payload). The exactness of counts over rule shapes × signer subsets, and cryptographic validity, are NOT decided.",
 		Decides:     []string{"sanity guard dominates", "one principal per Git signature", "principal/key dedup in envelope phase", "success-iff conditions on nil returns", "SignatureVerifier fields written only at construction", "consumer compares trusted∩used with Threshold()", "PAE binding in vendored dsse"},
@@ -414,6 +418,37 @@ func c05Consumer(c *Ctx, r *R) {
 	r.Check(len(ge) >= 1, "count-is-trusted-intersection", fn.Pos(),
 		"threshold test is TrustedPrincipalIDs().Intersection(usedPrincipalIDs).Len() >= verifier.Threshold()",
 		"no comparison TrustedPrincipalIDs().Intersection(usedPrincipalIDs).Len() >= verifier.Threshold(): approvers outside the rule, or a different operator, would satisfy the threshold")
+	// a verifier's failure other than "conditions unmet" ends the whole verification with that error:
+	// from the non-nil edge, counting approvals / trying the next verifier is reached only through
+	// errors.Is(err, ErrVerifierConditionsUnmet)
+	if ev, _ := vk.ErrResult(); ev != nil {
+		u := eng.UsesOfErr(ev)
+		unmet := eng.BoolEdges(fn, func(v ssa.Value) bool {
+			k, _, ok := eng.RootCall(v)
+			if !ok || k.Name() != "errors.Is" {
+				return false
+			}
+			g := eng.GlobalLoad(k.Arg(1))
+			return g != nil && g.Name() == "ErrVerifierConditionsUnmet" && sameObjVal(k.Arg(0), ev)
+		}, true)
+		heads := loopHeads(fn)
+		okU := len(unmet) > 0 && len(u.NonNilEdges) > 0
+		for _, e := range u.NonNilEdges {
+			if p := eng.FindPath(e.To(), 0, func(in ssa.Instruction) bool {
+				if heads[in] || isSuccessReturn(in) {
+					return true
+				}
+				if ci, ok := in.(ssa.CallInstruction); ok {
+					k := Call{Instr: ci, Callee: eng.CalleeOf(ci)}
+					return k.Callee != nil && k.Callee.Name() == "Intersection"
+				}
+				return false
+			}, eng.NewCut().AddEdges(unmet...)); p != nil {
+				okU = false
+			}
+		}
+		r.Check(okU, "unexpected-error-returned", vk.Pos(), "a verifier error other than ErrVerifierConditionsUnmet is returned", "a verifier error other than ErrVerifierConditionsUnmet is skipped over (approvals are counted / the next verifier is tried after a hard failure)")
+	}
 	gem1 := eng.RelEdges(fn, token.GEQ, cnt, eng.PBin(token.SUB, thr, eng.PInt(1)))
 	r.Check(len(gem1) == 1, "mergeable-relaxation-shape", fn.Pos(), "exactly one relaxed comparison against Threshold()-1", "the relaxed comparison against Threshold()-1 is missing or duplicated")
 	// relaxed comparison only under verifyMergeable ∧ Threshold() > 1
@@ -562,4 +597,76 @@ func c05PAE(c *Ctx, r *R) {
 	// provider removed after accepting
 	rm := eng.CallsTo(fn, false, "internal/third_party/go-securesystemslib/dsse.removeIndex")
 	r.Check(len(rm) >= 1, "provider-removed", vk.Pos(), "an accepting provider is removed from the unverified set", "accepting providers are no longer removed: one key could accept several signatures")
+}
+
+func c05CreditAfterVerification(c *Ctx, r *R) {
+	fn := r.Fn(sigVerify)
+	if fn == nil {
+		return
+	}
+	gv := eng.CallsTo(fn, false, "internal/signerverifier/gitobject.Verify")
+	gk, ok := oneCall(r, "anchor-git-verify", fn, gv, "gitobject.Verify")
+	if !ok {
+		return
+	}
+	ev, _ := gk.ErrResult()
+	var gitOK []eng.Edge
+	if ev != nil {
+		gitOK = eng.UsesOfErr(ev).NilEdges
+	}
+	accepted := eng.PCall("internal/signerverifier/dsse.VerifyEnvelope", 0)
+	acceptedLoops := map[*ssa.BasicBlock]bool{}
+	for _, h := range eng.LoopsOver(fn, accepted) {
+		for b := range eng.NaturalLoop(h) {
+			if b != h {
+				acceptedLoops[b] = true
+			}
+		}
+	}
+	n := 0
+	for _, k := range setCalls(fn, "Add") {
+		n++
+		r.Site(1)
+		dom := acceptedLoops[k.Block()]
+		for _, e := range gitOK {
+			if eng.EdgeDominates(e, k.Block()) {
+				dom = true
+			}
+		}
+		r.Check(dom, "credited-only-if-verified:"+itoa(n), k.Pos(), "credit is given only behind a successful verification", "a principal / key is credited without a signature having verified (not behind gitobject.Verify's nil edge nor in the loop over VerifyEnvelope's accepted keys)")
+	}
+	r.Check(n >= 4, "credit-sites", fn.Pos(), "four credit sites (principal and key, Git and envelope phase)", "expected four Add sites in Verify")
+	// the gitObjectVerified flag
+	var flag ssa.Value
+	for _, e := range eng.RelEdges(fn, token.EQL, eng.PField("threshold", nil), eng.PInt(1)) {
+		// the flag is tested right after `threshold == 1` on the early-return path
+		if iff, ok := e.To().Instrs[len(e.To().Instrs)-1].(*ssa.If); ok {
+			flag = iff.Cond
+		}
+	}
+	if flag == nil {
+		r.Bad("git-flag", fn.Pos(), "cannot find the 'Git object verified' flag next to the threshold == 1 shortcut")
+		return
+	}
+	okF, sawTrue, sawFalse := true, false, false
+	for _, a := range eng.Assignments(flag) {
+		b, isC := eng.ConstBool(a.Val)
+		if !isC {
+			okF = false
+			continue
+		}
+		if !b {
+			sawFalse = true
+			continue
+		}
+		sawTrue = true
+		dom := false
+		for _, e := range gitOK {
+			if a.At != nil && eng.EdgeDominates(e, a.At) {
+				dom = true
+			}
+		}
+		okF = okF && dom
+	}
+	r.Check(okF && sawTrue && sawFalse, "git-flag", fn.Pos(), "the flag starts false and is set only behind gitobject.Verify's nil edge", "the 'Git object verified' flag can be true without gitobject.Verify having succeeded (threshold-1 rules would accept an unsigned object)")
 }
